@@ -106,6 +106,8 @@ class AModel(Model):
             node = m.consts[name]
             if isinstance(node, ast.Constant):
                 return C(node.value)
+            if isinstance(node, ast.Call) and isinstance(node.func, ast.Name) and node.func.id == 'object' and not node.args:
+                return ('sentinel', name)      # a private marker object
             # module-level tables of constants (e.g. SQL statement templates keyed by name)
             if isinstance(node, ast.Dict) and all(isinstance(k, ast.Constant) and isinstance(v, ast.Constant) for k, v in zip(node.keys, node.values)):
                 return ('dict', tuple((C(k.value), C(v.value)) for k, v in zip(node.keys, node.values)))
@@ -144,6 +146,14 @@ class AModel(Model):
                 return [R(st, ('method', attr))]
             if attr in ('_conn', '_engine', '_metadata', '_key', '_val', '__module__'):
                 return [R(st, ('attr', SELF, attr))]
+            # a class-level table of constants read through self (e.g. SQL statement templates keyed by name)
+            cv = self.ci.attrs.get(attr)
+            if isinstance(cv, ast.Constant):
+                return [R(st, C(cv.value))]
+            if isinstance(cv, ast.Dict) and cv.keys and all(isinstance(k, ast.Constant) and isinstance(v, ast.Constant) for k, v in zip(cv.keys, cv.values)):
+                return [R(st, ('dict', tuple((C(k.value), C(v.value)) for k, v in zip(cv.keys, cv.values))))]
+            if isinstance(cv, (ast.Tuple, ast.List)) and cv.elts and all(isinstance(e, ast.Constant) for e in cv.elts):
+                return [R(st, ('tuple', tuple(C(e.value) for e in cv.elts)))]
             if hasattr(dict, attr):
                 return [R(st, ('dictmeth', attr))]
             return [R(st, ('attr', SELF, attr))]
@@ -584,6 +594,16 @@ class AModel(Model):
         # `memo == None` on something that is certainly a dict
         if val[0] == 'cmp' and val[1] in ('==', 'is') and val[3] == NONE and (self.surely_dict(val[2]) or val[2] in st.facts.get('notnone', ())):
             return [(st, False)]
+        # identity against a private sentinel (`_NOTFOUND = object()`): the sentinel is itself; nothing read from the store can be it
+        if val[0] == 'cmp' and val[1] in ('is', 'is not') and (val[2][0] == 'sentinel' or val[3][0] == 'sentinel'):
+            a, b = (val[2], val[3]) if val[3][0] == 'sentinel' else (val[3], val[2])
+            same = None
+            if a == b:
+                same = True
+            elif a[0] == 'sentinel' or is_const(a) or contains_term(a, lambda t: t[0] == 'ev' and t[1] in ('read', 'sqlres', 'list')):
+                same = False
+            if same is not None:
+                return [(st, same if val[1] == 'is' else (not same))]
         return None
 
     def surely_dict(self, v):
